@@ -299,13 +299,13 @@ impl C09 {
             let mut outcome: Result<(), usize> = Ok(());
             for ix in &expected {
                 let wl = model.heads[*ix].wl;
-                let items: Vec<([u8; 32], crate::world::prog::Prog)> = model.admissible(*ix).iter().filter_map(|id| intents.get(id).map(|i| (*id, i.prog.clone()))).collect();
+                let items: Vec<([u8; 32], u8, crate::world::prog::Prog)> = model.admissible(*ix).iter().filter_map(|id| intents.get(id).map(|i| (*id, i.kind, i.prog.clone()))).collect();
                 let Some(pre) = cur.get(&wl) else { break };
                 let t = crate::world::tick::ref_runtime_tick(pre, 0, &items);
                 predicted_receipts.push(t.entries.clone());
                 match t.post {
                     Ok(post) => {
-                        cur.insert(wl, post);
+                        cur.insert(wl, crate::world::tick::universe_only(&post));
                     }
                     Err(_) => {
                         outcome = Err(*ix);
